@@ -192,6 +192,30 @@ func c11run(c *fw.Ctx, idx int) {
 	c.Begin(idx, map[string]interface{}{"round": idx, "goroutines": goroutines, "ops_per_goroutine": ops})
 	defer c.End()
 
+	// the first executions of this process, several at once (each on a Set of its own): whatever jet sets up on first use
+	{
+		var fwg sync.WaitGroup
+		gate := make(chan struct{})
+		first := make([]string, 4)
+		for g := 0; g < 4; g++ {
+			fwg.Add(1)
+			go func(g int) {
+				defer fwg.Done()
+				fs, _ := jx.NewSet(map[string]string{"/first.jet": `{{ len("abc") }}{{ upper("x") }}{{ isset(.) }}{{ range ints(0, 2) }}{{ . }}{{ end }}`})
+				<-gate
+				first[g] = jx.RunSet(fs, "/first.jet", nil, "d").String()
+			}(g)
+		}
+		close(gate)
+		fwg.Wait()
+		for _, f := range first {
+			if f != first[0] || !strings.Contains(f, "3Xtrue01") {
+				c.Violation("c11:first-executions-of-the-process-differ", "", fmt.Sprint(first))
+				return
+			}
+		}
+	}
+
 	// serial expectations on a separate Set built from the same sources
 	refSet, _ := jx.NewSet(c11sources)
 	refSet.AddGlobal("stable", "stable-value")
@@ -398,6 +422,14 @@ func c11run(c *fw.Ctx, idx int) {
 				case k < 16: // LookupGlobal = read
 					key := fmt.Sprintf("g%d", rr.Intn(3))
 					local["LookupGlobal"]++
+					if rr.Intn(4) == 0 {
+						// a name that was never added (the "look it up, add it if absent" idiom starts like this)
+						if v, ok := set.LookupGlobal("never-added"); ok {
+							mu.Lock()
+							mismatches = append(mismatches, fmt.Sprintf("LookupGlobal of a name never added = %v, %v", v, ok))
+							mu.Unlock()
+						}
+					}
 					t0 := now()
 					v, _ := set.LookupGlobal(key)
 					out := fmt.Sprint(v)
